@@ -2,7 +2,7 @@
     Statements only; proofs in Run/RunProofs.v, Run/RunCounters.v, Match/CoreProofs.v. *)
 From Coq Require Import ZArith List Bool.
 From V Require Import Csv.CsvModel Data.DataModel Scan.ScanModel Scan.ScanSpec Run.RunLoop Run.RunProofs Run.RunCounters
-  Match.Adjudicate Match.Core Match.CoreProofs Match.AggProofs.
+  Run.RunFold Match.Adjudicate Match.Core Match.CoreProofs Match.AggProofs Match.CoreRun.
 Import ListNotations.
 Open Scope Z_scope.
 
@@ -101,6 +101,62 @@ Theorem C03_assign_key_step : forall blanks AND s l nm key e,
   (forall key', key <> key' -> dget (x mx (fst r)) nm key' = dget (x mx s) nm key').
 Proof. exact assign_key_step. Qed.
 Print Assumptions C03_tally_step.
+
+(** A run is a fold.  For every matcher that does not stop, advance or touch the scan counter or the
+    frozen flag, and leaves the state alone on the frozen evaluation of a blank final record: the
+    match part's own state and the two counters after a run over ANY file are the left fold of "offer
+    this line" over exactly the records the scan part denotes, in file order (blank records, records
+    outside the scan, halting and finalisation leave no trace).  [line_step] is what _consider_line
+    does around matches(): scan_count + 1, the matcher, match_count + 1 on a vote. *)
+Theorem C03_run_is_fold : forall (C X : Type) (m : rs X -> line C -> rs X * bool) sh (c : cfg) E,
+  wf sh -> parse false (ast_of sh) = Some (scanner c) -> q_scan c = false -> end_line c = Some E ->
+  quiet C X m ->
+  (forall s, oeqb (end_line c) (pln X s) = true -> core X (fst (m (set_frozen X s) [])) = core X s) ->
+  (forall s l, frozen X (fst (m s l)) = frozen X s) ->
+  forall (recs : list (line C)) (x0 : X), end_of C recs = Some E -> will_run c = true ->
+  core X (st C X (run_from C X m c (rs0 X x0) None recs)) =
+  core X (fold_left (line_step C X m) (filter (want C sh) (number 0 recs)) (rs0 X x0)).
+Proof. exact run_is_fold. Qed.
+Print Assumptions C03_run_is_fold.
+
+(** every CORE csvpath is such a matcher *)
+Theorem C03_core_run_is_fold : forall q blanks AND sh (c : cfg) E cs (recs : list (line ustring)) x0,
+  wf sh -> parse false (ast_of sh) = Some (scanner c) -> q_scan c = false -> end_line c = Some E ->
+  end_of ustring recs = Some E -> will_run c = true ->
+  core mx (st ustring mx (run_from ustring mx (core_m q blanks AND cs (Some E)) c (rs0 mx x0) None recs)) =
+  core mx (fold_left (line_step ustring mx (core_m q blanks AND cs (Some E))) (filter (want ustring sh) (number 0 recs)) (rs0 mx x0)).
+Proof. exact core_run_is_fold. Qed.
+Print Assumptions C03_core_run_is_fold.
+
+(** tally() against its specification: in ANY CORE csvpath that has tally(#i) once at top level and
+    names its dictionary nowhere else, after a run over ANY file with ANY scan the count stored for a
+    value is the number of scanned lines whose cell i holds that value (plus what was there before) *)
+Theorem C03_tally_counts_scanned : forall q blanks AND sh (c : cfg) E cs (recs : list (line ustring)) x0 i key,
+  wf sh -> parse false (ast_of sh) = Some (scanner c) -> q_scan c = false -> end_line c = Some E ->
+  end_of ustring recs = Some E -> will_run c = true -> tally_once i cs ->
+  num_of (dget (x mx (st ustring mx (run_from ustring mx (core_m q blanks AND cs (Some E)) c (rs0 mx x0) None recs))) (100 + Z.of_nat i) key) =
+  num_of (dget x0 (100 + Z.of_nat i) key) + count_key i key (filter (want ustring sh) (number 0 recs)).
+Proof. exact tally_counts_scanned. Qed.
+Print Assumptions C03_tally_counts_scanned.
+
+(** counter() against its specification: counter.nm(k) once at top level and no other writer of that
+    variable: after ANY run it holds k times the number of scanned lines (plus what it held before) *)
+Theorem C03_counter_counts_scanned : forall q blanks AND sh (c : cfg) E cs (recs : list (line ustring)) x0 nm k,
+  wf sh -> parse false (ast_of sh) = Some (scanner c) -> q_scan c = false -> end_line c = Some E ->
+  end_of ustring recs = Some E -> will_run c = true -> counter_once nm k cs ->
+  num_of (lookup nm (vars (x mx (st ustring mx (run_from ustring mx (core_m q blanks AND cs (Some E)) c (rs0 mx x0) None recs))))) =
+  num_of (lookup nm (vars x0)) + k * Z.of_nat (length (filter (want ustring sh) (number 0 recs))).
+Proof. exact counter_counts_scanned. Qed.
+Print Assumptions C03_counter_counts_scanned.
+
+Example C03_tally_once_nonvacuous :
+  tally_once 1 [CB (BExists 0); CAgg (Tally 1); CAgg (First 7 1); CAct (Agg (AssignK 5 [116] NCount))] /\
+  wf (From 1) /\ parse false (ast_of (From 1)) = Some (mkSc [] (Some 1) None true).
+Proof.
+  split; [|split; [vm_compute; auto|vm_compute; reflexivity]].
+  exists [CB (BExists 0)], [CAgg (First 7 1); CAct (Agg (AssignK 5 [116] NCount))].
+  split; [reflexivity|]. split; repeat constructor; unfold writes_comp; cbn [comp_agg writes]; discriminate.
+Qed.
 
 Example C03_bookkeeping_nonvacuous :
   (* [ tally(#1)  first.d7(#1)  counter.v8(2)  sum.v9(#0)  @d5.tot = count() ] over 3, 5, 3 (column 0) / a, b, a (column 1) *)
